@@ -3,10 +3,11 @@ import Pyrealb.Gen.TypConsts
 /-! Model of `Constituent.typ` (src/pyrealb/Constituent.py:245-278), of `validate_neg_option`
     (ConstituentEn.py:29, ConstituentFr.py:35) and of the READER idioms of a flag (inventory: `Gen/TypConsts`).
 
-`typ` validates the CALLER'S dict in place (`del types[key]` for an illegal value; an unknown key only warns and
-STAYS in the dict), then stores that very dict (`self.props["typ"] = types`) or merges it into the stored one
-(`self.props["typ"].update(types)`).  The aliasing with the caller's object is C13's business; here the content
-of the stored map and of the caller's dict after the call are modelled. -/
+`typ` validates a COPY of the caller's dict (`types=dict(types)`, since the fix of DESIGN §9 #5; before it the caller's
+dict itself was pruned and stored): `del types[key]` for an illegal value; an unknown key only warns and STAYS in
+the dict; the copy is then stored (`self.props["typ"] = types`) or merged into the stored one
+(`self.props["typ"].update(types)`).  The content of the stored map and of the caller's dict after the call (now:
+unchanged) are modelled. -/
 namespace Pyrealb.Typ
 open Pyrealb Pyrealb.Gen.TypConsts
 
@@ -64,8 +65,8 @@ def typ (lang : Lang) (receiverOk : Bool) (stored : Option Dict) : Arg → Res
     else
       let (types', w) := validate lang types
       match stored with
-      | some st => { stored := some (Dict.update st types'), caller := some types', warns := w }
-      | none => { stored := some types', caller := some types', warns := w }
+      | some st => { stored := some (Dict.update st types'), caller := some types, warns := w }
+      | none => { stored := some types', caller := some types, warns := w }
 
 /-- successive `.typ` calls on one receiver: stored map and total number of warnings -/
 def run (lang : Lang) (receiverOk : Bool) : Option Dict → List Arg → Option Dict × Nat
